@@ -449,6 +449,11 @@ func DriverMain(propID, tier string, seed uint64, replayPath string) int {
 	var newViol []string
 	seen := map[string]bool{}
 	for _, f := range d.findings {
+		if strings.HasPrefix(f.Kind, "batch:") {
+			// a panic outside any case is a fault of the generator, not of the library
+			d.inconcl = append(d.inconcl, "harness generator failed in "+f.Kind+": "+f.Msg)
+			continue
+		}
 		key := CaseKey(f.Kind, f.Input)
 		if seen[key] {
 			continue
